@@ -643,6 +643,10 @@ class CallMixin(object):
         if self.mode == 'event':
           yield from self.call_opaque(VBound(base, meth), args, kw, st, star, dstar)
           return
+    if isinstance(base, VBound) and self.mode == 'event':
+      # a method of an attribute of an opaque object (self.ctx.namer.new_symbol): an observable action
+      yield from self.call_opaque(VBound(base, meth), args, kw, st, star, dstar)
+      return
     raise Unsupported('method %s on %r' % (meth, base))
 
   def str_method(self, base, meth, args, st):
